@@ -79,6 +79,10 @@ def gen_network(rng, nbus=None, hard=True, asym=None):
                 ln["g1"] = float(rng.uniform(0.0, 0.01)) * kz
         if hard and k >= n - 1 and rng.random() < 0.15:
             ln["u"] = 0
+        if k >= n - 1 and ln["trans"] and ln["phi"] != 0.0 and int(ln["tap"] * 1e4) % 3 == 0:
+            # a pure phase shifter (nominal ratio): decided from numbers already drawn, so the random stream - and with it
+            # every other generated network - stays what it was.  MATPOWER writes such a branch with ratio 0.
+            ln["tap"] = 1.0
         lines.append(ln)
         if k < n - 1:  # tree edge: define the design voltage of the new node t from a target flow
             flow = rng.uniform(-0.7, 0.7)          # pu on system base, normal loading
